@@ -11,7 +11,8 @@ Statement-by-statement mirror of `maintain`, `idle_check`, `fetch_and_update`,
 
 * Time is nanoseconds since the epoch (`Nat`); the worker's `SystemTime::now()` is the `now` argument
   of each operation (the hooks inject it).
-* The policy is an arbitrary predicate `allowed : Path → Bool` (`PathStrategy::predicate`).
+* The policy is an arbitrary predicate `allowed : Path → Bool` (`PathStrategy::predicate`); with several
+  attached policies it is `allowedAll pols`, the conjunction of the attached predicates.
 * f32 scores are never computed here (the one f32 operation of the control flow, the subtraction in
   `decide_active_path_update`, is `f32Round` of the exact difference).  Each operation takes the total score the real scorer assigns
   at that operation's `now` as a map `Fp → Int` (unit 2^-149, exact for every finite f32):
@@ -61,6 +62,12 @@ structure Env where
   src : Nat
   dst : Nat
   allowed : Path → Bool
+
+/-- `PathStrategy::predicate` over the attached policies (`PathStrategy::add_policy` /
+    `SocketConfig::with_path_policy` push one `PathPolicy::predicate` each):
+    `self.policies.iter().all(|policy| policy.predicate(path))`; no policy attached ⇒ every path is accepted -/
+def allowedAll (pols : List (Path → Bool)) : Path → Bool :=
+  fun p => pols.all (fun pol => pol p)
 
 structure St where
   cached : List Path := []
